@@ -15,7 +15,31 @@ def run(res):
         # same connection; R.Panic frames to a client whose own (reverse) handler panics; the process must survive and keep
         # answering (worker subprocess), the panicking call alone gets the error
         C10.ws_frames(res)
-        res.assumptions.append("Go's recover semantics; runtime-fatal errors (concurrent map write, stack overflow) are not recoverable panics and out of scope")
+        storm(res)
+        res.assumptions.append("Go's recover semantics; a handler that itself brings the runtime down (stack exhaustion, its own data race on a map) is not a recoverable panic and out of scope; "
+                               "what the library's own recovery path does while many handlers panic together is in scope (ws-storm)")
+
+
+def storm(res):
+    """many handlers panicking at the same moment over several WebSocket connections, through distinct method names and through
+    one; the server is hosted by a worker subprocess (its death is observed); judged by the direct oracle"""
+    import json
+    import vlib
+    exe = vlib.build_harness()[2]
+    rc, obs, err, bad = vlib.run_family(exe, "ws-storm", seed=res.seed, tier=res.tier, timeout=600)
+    if rc != 0 or bad or not obs:
+        res.mismatches.append({"family": "ws-storm", "error": "harness exit %d" % rc, "stderr": err[-2000:], "bad": bad[:3]})
+        return
+    for o in obs:
+        if o.get("oracle_fail"):
+            res.violations.append({"what": o["oracle_fail"], "family": "ws-storm", "case": o,
+                                   "signature": "ws-storm:%s:%d:%d" % (o["names"], o["conns"], o["group"])})
+    cov = res.coverage
+    n = sum(o["conns"] * o["per_conn"] for o in obs)
+    cov["concurrent_panic_calls"] = n
+    cov["concurrent_panic_runs"] = [{k: o[k] for k in ("conns", "per_conn", "group", "names", "error_replies", "probes_ok", "crashed")} for o in obs]
+    cov["evaluations"] = cov.get("evaluations", 0) + n
+    cov["rule"] = cov.get("rule", "") + " | ws-storm: groups of handlers panic at the same moment over several connections (distinct aliases / one name); every call must get its own panic error, a healthy call succeeds afterwards on each connection, the hosting process survives"
 
 
 def replay(res, path):
